@@ -2075,3 +2075,78 @@ func ruleCppEnumUnderlyingType(c *core.Ctx) {
 	c.Check(okFlags, rule, "flags/underlying type argument", posFlags, "yardl::BaseFlags receives TypeSyntax(BaseType) when the flags declare a base type",
 		"yardl::BaseFlags is not instantiated with the declared base type of the flags")
 }
+
+// L3: context objects are passed on complete. For the struct types listed in completeLiteralTypes — the scope/context
+// values a recursive traversal hands down (every literal of them on the reviewed tree sets every field) — a composite
+// literal that leaves a field out silently resets that part of the context for the whole subtree (e.g. the chain of
+// computed fields being resolved, which is what detects cycles).
+var completeLiteralTypes = map[string]string{
+	"ComputedFieldScope": "record, already rewritten fields, fields being resolved (cycle detection) and variables in scope all travel down the expression tree",
+}
+
+func ruleContextLiteralsComplete(c *core.Ctx) {
+	const rule = "L3"
+	c.Rule(rule, "pkg/dsl: every composite literal of a traversal-context struct (table: ComputedFieldScope) that continues an existing context (copies a field from another value of the type) sets all of its fields", 2)
+	p := c.Pkg("pkg/dsl")
+	if p == nil {
+		c.Undecided(rule, "anchor/pkg/dsl", 0, "package not found")
+		return
+	}
+	info := p.TypesInfo
+	for _, d := range c.AllDecls() {
+		if c.DeclPkg(d) != p || d.Body == nil || c.IsTestFile(d.Pos()) {
+			continue
+		}
+		n := 0
+		ast.Inspect(d.Body, func(x ast.Node) bool {
+			cl, ok := x.(*ast.CompositeLit)
+			if !ok {
+				return true
+			}
+			nt := core.NamedOf(info.TypeOf(cl))
+			if nt == nil || completeLiteralTypes[nt.Obj().Name()] == "" {
+				return true
+			}
+			st, ok := nt.Underlying().(*types.Struct)
+			if !ok {
+				return true
+			}
+			// only literals that continue an existing context (they copy at least one field from another value of the
+			// type); a fresh root context legitimately starts empty
+			derived := false
+			ast.Inspect(cl, func(y ast.Node) bool {
+				if se, ok := y.(*ast.SelectorExpr); ok {
+					if bt := core.NamedOf(info.TypeOf(se.X)); bt != nil && bt.Obj() == nt.Obj() {
+						derived = true
+					}
+				}
+				return !derived
+			})
+			if !derived {
+				return true
+			}
+			n++
+			key := c.FuncName(d) + "/" + nt.Obj().Name() + "{…}#" + itoa(n)
+			set := map[string]bool{}
+			keyed := false
+			for _, el := range cl.Elts {
+				if kv, ok := el.(*ast.KeyValueExpr); ok {
+					keyed = true
+					if id, ok := kv.Key.(*ast.Ident); ok {
+						set[id.Name] = true
+					}
+				}
+			}
+			var missing []string
+			if keyed || len(cl.Elts) == 0 {
+				for i := 0; i < st.NumFields(); i++ {
+					if !set[st.Field(i).Name()] {
+						missing = append(missing, st.Field(i).Name())
+					}
+				}
+			}
+			c.Check(len(missing) == 0, rule, key, cl.Pos(), "all fields set", "the literal leaves out "+strings.Join(missing, ", ")+" ("+completeLiteralTypes[nt.Obj().Name()]+"): below this point the traversal runs with that part of the context reset")
+			return true
+		})
+	}
+}
